@@ -23,6 +23,7 @@ func rebuildScenarios(seed int64, bi int, o Omni) []*Scenario {
 	if bi%5 == 1 {
 		opts.Gen.MaxDepth = 3
 	}
+	opts.Gen.DynFocus = bi%6 == 3
 	scs := genScenarios(r, opts)
 	if bi%2 == 0 {
 		// the Terraform-like language: self references, inferred bodies with nested list/map/object blocks
